@@ -102,15 +102,11 @@ Theorem C02_sets_no_ub :
    forall (input : list A), returns_ok (fms_construct lt input)).
 Proof.
   split; [|split; [|split; [|split]]].
-  - intros A lt SW k cap ops H. destruct (C09.Properties.C09_set_sorted_unique_inv A lt SW k cap ops H) as (s & tr & E & _).
-    exact (ok_returns_ok _ _ _ E).
-  - intros A lt SW cap ops. destruct (C09.Properties.C09_static_set_sorted_unique_inv A lt SW cap ops) as (s & tr & E & _).
-    exact (ok_returns_ok _ _ _ E).
-  - intros A lt SW k cap s o I H. destruct (C09.Properties.C09_step_from_any_set A lt SW k cap s o I H) as (s' & r' & E & _).
-    exact (ok_returns_ok _ _ _ E).
-  - intros A lt SW k tr x l H. exact (ok_returns_ok _ _ _ (C09.Properties.C09_lookup_key_refines_std A lt SW k tr x l H)).
-  - intros A lt SW input. destruct (C09.Properties.C09_flat_multiset_sorted_perm A lt SW input) as (l' & E & _).
-    exact (ok_returns_ok _ _ _ E).
+  - intros A lt SW k cap ops H. pose proof (C09.Properties.C09_set_sorted_unique_inv A lt SW k cap ops H) as HH. ok_from HH.
+  - intros A lt SW cap ops. pose proof (C09.Properties.C09_static_set_sorted_unique_inv A lt SW cap ops) as HH. ok_from HH.
+  - intros A lt SW k cap s o I H. pose proof (C09.Properties.C09_step_from_any_set A lt SW k cap s o I H) as HH. ok_from HH.
+  - intros A lt SW k tr x l H. (pose proof (C09.Properties.C09_lookup_key_refines_std A lt SW k tr x l H) as HH; ok_from HH).
+  - intros A lt SW input. pose proof (C09.Properties.C09_flat_multiset_sorted_perm A lt SW input) as HH. ok_from HH.
 Qed.
 Print Assumptions C02_sets_no_ub.
 End Sets.
